@@ -60,10 +60,11 @@ type State struct {
 	heap  map[string]Term
 	armed map[*ssa.Defer]Term
 	epoch int
+	aepoch int // epoch of the atomic families (atomicval$, atomic$...)
 }
 
 func (s *State) clone() *State {
-	n := &State{pc: s.pc, epoch: s.epoch, cells: make(map[cellKey]SV, len(s.cells)), heap: make(map[string]Term, len(s.heap)), armed: make(map[*ssa.Defer]Term, len(s.armed))}
+	n := &State{pc: s.pc, epoch: s.epoch, aepoch: s.aepoch, cells: make(map[cellKey]SV, len(s.cells)), heap: make(map[string]Term, len(s.heap)), armed: make(map[*ssa.Defer]Term, len(s.armed))}
 	for k, v := range s.cells {
 		n.cells[k] = v
 	}
@@ -217,13 +218,22 @@ func (c *FnCtx) heapSort(leaf Sort, twoLevel bool) Sort {
 	return SArr(SInt, leaf)
 }
 
+func atomicHeap(name string) bool {
+	return strings.HasPrefix(name, "atomic$") || strings.HasPrefix(name, "atomicval$")
+}
+
 func pinnedHeap(name string) bool {
-	return name == "alloc" || name == "held$" || strings.HasPrefix(name, "ghost$") || strings.HasPrefix(name, "atomic$")
+	return name == "alloc" || name == "held$" || strings.HasPrefix(name, "ghost$") || atomicHeap(name)
 }
 
 // initHeap is the constant standing for a heap that has not been written since the state's
-// last wholesale havoc (epoch). Ghost heaps are never havocked wholesale.
-func (c *FnCtx) initHeap(epoch int, name string, sort Sort) Term {
+// last wholesale havoc (epoch). Ghost heaps are never havocked wholesale; the atomic families
+// have their own epoch (bumped by `modifies atomic(*)`).
+func (c *FnCtx) initHeap(st *State, name string, sort Sort) Term {
+	epoch := st.epoch
+	if atomicHeap(name) {
+		return c.vc.Const(fmt.Sprintf("A%d$%s", st.aepoch, name), sort)
+	}
 	if pinnedHeap(name) {
 		epoch = 0
 	}
@@ -235,7 +245,7 @@ func (c *FnCtx) heapGet(st *State, name string, sort Sort) Term {
 		return t
 	}
 	c.heapNames[name] = sort
-	return c.initHeap(st.epoch, name, sort)
+	return c.initHeap(st, name, sort)
 }
 
 func (c *FnCtx) heapSet(st *State, name string, t Term) {
@@ -647,11 +657,13 @@ func (c *FnCtx) strLit(s string) Term {
 
 func (c *FnCtx) strLen(s Term) Term {
 	f := c.vc.Declare("strlen", []Sort{SStr}, SInt)
-	if !c.strAxioms {
-		c.strAxioms = true
-		c.vc.Assert(Term{fmt.Sprintf("(forall ((s Str)) (! (>= (%s s) 0) :pattern ((%s s))))", f, f), SBool})
+	t := Term{fmt.Sprintf("(%s %s)", f, s.S), SInt}
+	// lengths are non-negative: asserted per term (no quantifier, so models stay available)
+	if c.vc.quant == 0 && !c.strLenDone[t.S] {
+		c.strLenDone[t.S] = true
+		c.vc.Assert(App(SBool, ">=", t, IntLit(0)))
 	}
-	return Term{fmt.Sprintf("(%s %s)", f, s.S), SInt}
+	return t
 }
 
 func (c *FnCtx) strAt(s, i Term) Term {
@@ -763,10 +775,10 @@ func (c *FnCtx) mergeStates(ins []edgeState) *State {
 		guards = append(guards, e.guard)
 	}
 	out := ins[len(ins)-1].st.clone()
-	lastEpoch := out.epoch
+	last := ins[len(ins)-1].st
 	sameEpoch := true
 	for _, e := range ins {
-		if e.st.epoch != out.epoch {
+		if e.st.epoch != out.epoch || e.st.aepoch != out.aepoch {
 			sameEpoch = false
 		}
 	}
@@ -775,11 +787,12 @@ func (c *FnCtx) mergeStates(ins []edgeState) *State {
 		// fresh epoch for names never seen so far (conservative: they become unconstrained)
 		for k, srt := range c.heapNames {
 			if _, ok := out.heap[k]; !ok {
-				out.heap[k] = c.initHeap(lastEpoch, k, srt)
+				out.heap[k] = c.initHeap(last, k, srt)
 			}
 		}
 		c.epochs++
 		out.epoch = c.epochs
+		out.aepoch = c.epochs
 	}
 	// fold from the last to the first
 	for i := len(ins) - 2; i >= 0; i-- {
@@ -821,7 +834,7 @@ func (c *FnCtx) mergeStates(ins []edgeState) *State {
 			a := c.heapGetAt(e.st, k, srt)
 			b, ok := out.heap[k]
 			if !ok {
-				b = c.initHeap(lastEpoch, k, srt)
+				b = c.initHeap(last, k, srt)
 			}
 			out.heap[k] = c.mergeTerm(g, a, b)
 		}
@@ -853,5 +866,5 @@ func (c *FnCtx) heapGetAt(st *State, name string, sort Sort) Term {
 	if t, ok := st.heap[name]; ok {
 		return t
 	}
-	return c.initHeap(st.epoch, name, sort)
+	return c.initHeap(st, name, sort)
 }
